@@ -13,6 +13,7 @@ def c08(ctx):
     # the same monitor in its literal, history form (backward scans over the recorded trace)
     run_script(ctx, gen.random_plain(ctx.rng, "cc14", ctx.q(15000, 100000), seg=300), "random-cc14-history",
                history=True)
+    run_script(ctx, gen.sweep_cc14_values(ctx.rng, step=ctx.q(2, 1)), "value-sweep-cc14")
     # twin-free canary: corrupt one reported value / fabricate one report
     canary(ctx, trace, corrupt_out("cc14", op=("feed",), need_report=ctx.rng.random() < 0.5))
     ctx.rule = ("design: TLC fixpoint of machine x C08-monitor (all 128 controller numbers, abstract values, "
@@ -48,6 +49,10 @@ def c07(ctx):
     edges_cc14(ctx, impls=("raw",))
     run_script(ctx, enc14_table(ctx), "encode-table-cc14")
     res, trace = run_script(ctx, gen.roundtrip_cc14(ctx.rng, ctx.q(6000, 60000)), "roundtrip-cc14")
+    rows = []
+    for _ in range(ctx.q(1, 6)):
+        rows += gen.sweep_cc14_values(ctx.rng, step=1)         # all 16384 (high, low) pairs
+    run_script(ctx, rows, "value-sweep-cc14")
     canary(ctx, trace, corrupt_field("bytes", [[176, 0, 0], [176, 32, 1]],
                                      lambda r: r["op"] == "enc14" and not r["pan"]))
     canary(ctx, trace, lambda rows, rng: _corrupt_group_out(rows, rng, "rt14"))
@@ -77,6 +82,7 @@ def c11(ctx):
     res, trace = run_script(ctx, gen.random_plain(ctx.rng, "pn", ctx.q(60000, 500000)), "random-pn")
     run_script(ctx, gen.random_plain(ctx.rng, "pn", ctx.q(12000, 80000), seg=250), "random-pn-history",
                history=True)
+    run_script(ctx, gen.sweep_pn_values(ctx.rng, "pn", step=ctx.q(3, 1)), "value-sweep-pn")
     canary(ctx, trace, corrupt_out("pn", op=("feed",), need_report=ctx.rng.random() < 0.5))
     ctx.rule = ("design: TLC fixpoint of machine x C11-monitor (all 8 contributing controllers + 11 others, "
                 "abstract values, other message types, reset); code: every TLC edge on all 16 channels x 3 "
@@ -88,6 +94,7 @@ def c10(ctx):
     mc_pn(ctx, with_run=True)
     edges_pn(ctx, impls=("raw",))
     res, trace = run_script(ctx, gen.roundtrip_pn(ctx.rng, ctx.q(6000, 60000)), "roundtrip-pn")
+    run_script(ctx, gen.sweep_pn_values(ctx.rng, "pn", step=ctx.q(2, 1)), "value-sweep-pn")
     canary(ctx, trace, lambda rows, rng: _corrupt_group_out(rows, rng, ctx.rng.choice(["rtpn", "run"])))
     ctx.rule = ("design: invariants I_C10 / I_C10run hold in every reachable machine state (TLC): every abstract "
                 "message's LSB-first encoding and the running forms (3 repetitions) are inverted; code: complete "
@@ -134,6 +141,7 @@ def c14(ctx):
         run_apalache(ctx, "Ind_Poll", witness="NoFvc")
     edges_poll(ctx)
     res, trace = random_poll_traces(ctx, ctx.q(80000, 600000))
+    run_script(ctx, gen.sweep_pn_values(ctx.rng, "poll", step=ctx.q(5, 1), to=ctx.rng.choice([0, 1, 5])), "value-sweep-poll")
     canary(ctx, trace, corrupt_out("poll", op=("feed",), need_report=True))
     vacuity(ctx, ["feed.poll.two", "C14e.feed", "poll.late.pending", "feed.poll.report", "reset.poll"])
     ctx.rule = ("design: TLC fixpoint of machine x monitor over the malformed alphabet too (any contributing "
